@@ -3,7 +3,7 @@ import ast
 
 from ..repo import AnalysisError
 from ..report import Ob, RuleSpec
-from ..astutil import (src, flat_guards, flatten_guard, calls_in, call_name, kwarg, const_value,
+from ..astutil import (always_leaves, src, flat_guards, flatten_guard, calls_in, call_name, kwarg, const_value,
                        iter_own_nodes, ancestors, is_within, names_in, attr_chain)
 from ..cfg import cfg_of, Prov, resolve_local
 from ..irwrites import closure_effects, IR_MODULES
@@ -338,7 +338,7 @@ def r5_identity_visitors(repo):
                         v.func.attr == name and [src(a) for a in v.args] == [p]:
                     continue
                 bad.append(src(r))
-            falls = not rets or not isinstance(m.node.body[-1], (ast.Return, ast.Raise))
+            falls = not rets or not always_leaves(m.node.body)     # every path ends in a return / raise
             obs.append(Ob("C03-R5", "%s.%s:returns-its-node" % (c.name, name), _w(m), not bad and not falls,
                           "a visitor of the mutation must return its argument or the inherited visitor's result "
                           "(otherwise update_children installs a different object): %s%s"
